@@ -27,8 +27,11 @@ import GV.Lemmas.C15b
   `C15_bytes_mapper_mismatch` (+ `_announced`, `_no_rows`) (Goal C); concrete histories with proofs of the hypotheses
   and instances of both theorems (kernel) plus #guard checks in all 8 configurations (evaluator);
   `C15_bytes_stale_map_refuted` / `_silent` (Goal B: a mutated parser that keeps the FIRST table map of an id fails —
-  or silently mis-types — on the concrete example); `C15_bytes_redefinition_needs_agree_refuted` /
-  `_needs_current_refuted` (each new hypothesis of `WFHistRedef` is needed).
+  or silently mis-types — on the concrete example); `C15_bytes_redefinition_needs_current_refuted` (`current` is
+  needed) and `C15_bytes_redefinition_agree_not_needed` (+ `_other_name_example`): since the repair of finding F13 —
+  a TABLE_MAP event for an id cached under ANOTHER (database, name) makes the parser ask the mapper again and replace
+  the entry — `agree` follows, where it matters, from `MapperAgrees`; for the code as found its necessity was proved
+  here (`C15_bytes_redefinition_needs_agree_refuted`, now false and removed).  See GV/Props/C15c.lean.
 -/
 namespace GV.Props.C15b
 open GV GV.M GV.Props.C01 GV.Props.C01b GV.C01c GV.C15b
@@ -408,7 +411,7 @@ theorem C15_bytes_stale_map_silent :
     colTypes run.calls = [[[[3, 15]], [[4, 15]]]] ∧ colTypes stale.calls = [[[[3, 15]], [[3, 15]]]] := by
   decide
 
-/-! ### the two new hypotheses of `WFHistRedef` are needed -/
+/-! ### of the two new hypotheses of `WFHistRedef`, `current` is needed; `agree` no longer is -/
 
 /-- id 7 announced as table [116] with columns [97], [98], then as table [119] with columns [120], [121] -/
 def exNoAgree : W.History := [.tx (asc "BEGIN") [.rows cA1, .rows cG1] (.xid 9) 90]
@@ -418,39 +421,64 @@ def exEnvG : Env := ⟨exExt, fun _ n => if n = [119] then some (infoOf tG) else
 def tableNames (txs : List Transaction) : List (List ((Bytes × Bytes) × List (List Bytes))) :=
   txs.map fun t => t.events.map fun e => (e.table, e.rowValues.map fun r => r.map (·.field))
 
-set_option maxRecDepth 100000 in
-/-- without `agree` the theorem is false: the mapper is asked at the FIRST announcement of a table id only, so a
-    re-definition under another table name / other column names (every definition being known to the mapper) is
-    delivered under the first definition's names (kernel-computed on `exNoAgree`) -/
-theorem C15_bytes_redefinition_needs_agree_refuted :
-    ¬ (∀ (cfg : W.Cfg) (env : Env) (h : W.History), (∀ u ∈ h, UnitOK cfg u) → curOK [] (histRows h) →
+/-- `agree` is not needed (for the code as repaired after finding F13): a table id announced for ANOTHER table makes the
+    parser ask the mapper again, and definitions of ONE table have the same mapper answer anyway — the mapper is a
+    function of (database, name) and `MapperAgrees` says it knows every definition.  So fidelity holds for every
+    history of well-formed units in which each rows change carries the definition most recently announced for its id.
+
+    HISTORY.  For streamer.go as found, the NEGATION of this statement was proved here, under the name
+    `C15_bytes_redefinition_needs_agree_refuted`: the mapper was asked at the FIRST announcement of a table id only, so
+    a re-definition under another table name / other column names was delivered under the first definition's names
+    (finding F13; the old control flow is kept, as a variant, in GV/Lemmas/C15c.lean, and
+    `GV.Props.C15c.C15_bytes_id_reuse_misattributed_by_old_code` evaluates it). -/
+theorem C15_bytes_redefinition_agree_not_needed :
+    ∀ (cfg : W.Cfg) (env : Env) (h : W.History), (∀ u ∈ h, UnitOK cfg u) → curOK [] (histRows h) →
         (∀ e ∈ W.layout cfg h, e.next < 2 ^ 32) → MapperAgrees env h →
         parseEvents env (fun _ => true) (PState.init ⟨W.firstFile, 4⟩)
             ((W.serve cfg h ⟨W.firstFile, 4⟩).map Input.event ++ [Input.closed])
           = ⟨(W.expected cfg h ⟨W.firstFile, 4⟩).map (toTx env.ext), (W.expected cfg h ⟨W.firstFile, 4⟩).map (toTx env.ext),
-             posOf (W.endPos cfg h ⟨W.firstFile, 4⟩), false, false⟩) := by
-  intro hall
-  have h := hall {} exEnvG exNoAgree ?_ ⟨.inl rfl, .inl rfl, trivial⟩ (by decide) ?_
-  · have hc := congrArg (fun o => tableNames o.calls) h
-    have h1 : tableNames (parseEvents exEnvG (fun _ => true) (PState.init ⟨W.firstFile, 4⟩)
+             posOf (W.endPos cfg h ⟨W.firstFile, 4⟩), false, false⟩ :=
+  fun cfg env h hu hc ho hm => GV.C15b.fidelity_cur cfg env h hu hc ho hm
+
+theorem exNoAgree_units : ∀ u ∈ exNoAgree, UnitOK {} u := by
+  intro u hu
+  simp only [exNoAgree, List.mem_cons, List.not_mem_nil, or_false] at hu
+  subst hu
+  refine ⟨by decide, ?_, trivial, by decide⟩
+  intro c hc
+  simp only [List.mem_cons, List.not_mem_nil, or_false] at hc
+  rcases hc with rfl | rfl
+  · exact ⟨cA1_ok, by decide⟩
+  · exact ⟨cG1_ok, by decide⟩
+
+theorem exNoAgree_mapper : MapperAgrees exEnvG exNoAgree := by
+  intro c hc
+  simp [exNoAgree, histRows, unitRows, changeRows] at hc
+  rcases hc with rfl | rfl <;> rfl
+
+/-- `exNoAgree` is outside the domain of `C15_bytes_redefinition`: the two definitions of id 7 are different tables -/
+example : ¬ WFHistRedef {} exNoAgree := fun h =>
+  absurd (h.agree cA1 (by simp [exNoAgree, histRows, unitRows, changeRows]) cG1
+    (by simp [exNoAgree, histRows, unitRows, changeRows]) rfl) (by decide)
+
+/-- … and inside the domain of `C15_bytes_redefinition_agree_not_needed` -/
+example : parseEvents exEnvG (fun _ => true) (PState.init ⟨W.firstFile, 4⟩)
+      ((W.serve {} exNoAgree ⟨W.firstFile, 4⟩).map Input.event ++ [Input.closed])
+    = ⟨(W.expected {} exNoAgree ⟨W.firstFile, 4⟩).map (toTx exExt), (W.expected {} exNoAgree ⟨W.firstFile, 4⟩).map (toTx exExt),
+       posOf (W.endPos {} exNoAgree ⟨W.firstFile, 4⟩), false, false⟩ :=
+  C15_bytes_redefinition_agree_not_needed {} exEnvG exNoAgree exNoAgree_units ⟨.inl rfl, .inl rfl, trivial⟩ (by decide)
+    exNoAgree_mapper
+
+set_option maxRecDepth 100000 in
+/-- kernel-computed on `exNoAgree`: the second rows change — id 7 re-used for table [119] — is delivered under table
+    [119] with its own column names, as expected (the code as found delivered it under table [116], columns [97], [98]) -/
+theorem C15_bytes_redefinition_other_name_example :
+    tableNames (parseEvents exEnvG (fun _ => true) (PState.init ⟨W.firstFile, 4⟩)
         ((W.serve {} exNoAgree ⟨W.firstFile, 4⟩).map Input.event ++ [Input.closed])).calls
-        = [[(([100], [116]), [[[97], [98]]]), (([100], [116]), [[[97], [98]]])]] := by decide
-    have h2 : tableNames ((W.expected {} exNoAgree ⟨W.firstFile, 4⟩).map (toTx exEnvG.ext))
-        = [[(([100], [116]), [[[97], [98]]]), (([100], [119]), [[[120], [121]]])]] := by decide
-    simp only [h1, h2] at hc
-    revert hc; decide
-  · intro u hu
-    simp only [exNoAgree, List.mem_cons, List.not_mem_nil, or_false] at hu
-    subst hu
-    refine ⟨by decide, ?_, trivial, by decide⟩
-    intro c hc
-    simp only [List.mem_cons, List.not_mem_nil, or_false] at hc
-    rcases hc with rfl | rfl
-    · exact ⟨cA1_ok, by decide⟩
-    · exact ⟨cG1_ok, by decide⟩
-  · intro c hc
-    simp [exNoAgree, histRows, unitRows, changeRows] at hc
-    rcases hc with rfl | rfl <;> rfl
+      = [[(([100], [116]), [[[97], [98]]]), (([100], [119]), [[[120], [121]]])]] ∧
+    tableNames ((W.expected {} exNoAgree ⟨W.firstFile, 4⟩).map (toTx exEnvG.ext))
+      = [[(([100], [116]), [[[97], [98]]]), (([100], [119]), [[[120], [121]]])]] := by
+  constructor <;> decide
 
 /-- id 7 announced as (INT, VARCHAR(100)), re-announced as (BIGINT, VARCHAR(300)), then a rows event in the FIRST
     encoding without a new announcement -/
